@@ -12,6 +12,10 @@ package rest
 //
 // Ground truth logged in the "Case" line is only what the harness WROTE (channels of each revision, grants); the
 // gateway's own view of access is never consulted.
+//
+// Environment: VERIF_BEH (cases), VERIF_TRACE_OUT (ndjson), VERIF_SEED; VERIF_C02_FLAGS=full (whole flag product instead of
+// the core selection), VERIF_C02_DEFAULT_COLLECTION=1 (database on _default._default: auth/role.go authorizeAnyChannel path),
+// VERIF_C02_BLIP=1 (replication-protocol surfaces instead of the REST ones).
 
 import (
 	"bytes"
@@ -540,8 +544,8 @@ func vC02Reads(in *vC02Inst, full bool, rnd *rand.Rand) []vC02Read {
 	// ---- Changes(include_docs, style), from just before the case's document; bounded by limit
 	type cf struct {
 		inc, all, active bool
-		filter         string
-		post           bool
+		filter           string
+		post             bool
 	}
 	cfs := []cf{}
 	if full {
@@ -771,11 +775,12 @@ func vC02Parts(contentType string, raw []byte, depth int, f func(map[string]any)
 }
 
 // ---- replication protocol (BLIP): one connection per (case, user, pass):
-//   BlipChanges        subChanges (one shot, since just before the case's document): the `changes` messages received
-//   BlipRev            the rev / norev messages the gateway sends when the client asks for every listed revision of the document
-//   BlipGetAttachment  getAttachment for the attachment digest of EVERY revision of the document, asked while the rev message is
-//                      being handled (the only time the per-connection allow-list can contain it) and again afterwards
-//   BlipGetRev         connected-client getRev of the document
+//
+//	BlipChanges        subChanges (one shot, since just before the case's document): the `changes` messages received
+//	BlipRev            the rev / norev messages the gateway sends when the client asks for every listed revision of the document
+//	BlipGetAttachment  getAttachment for the attachment digest of EVERY revision of the document, asked while the rev message is
+//	                   being handled (the only time the per-connection allow-list can contain it) and again afterwards
+//	BlipGetRev         connected-client getRev of the document
 func vC02Blip(t *testing.T, rt *RestTester, in *vC02Inst, pass, u string) []vObj {
 	spec := &BlipTesterSpec{}
 	if u != "g" {
@@ -820,7 +825,8 @@ func vC02Blip(t *testing.T, rt *RestTester, in *vC02Inst, pass, u string) []vObj
 			rq.Properties[db.GetAttachmentID] = in.docID
 			bt.addCollectionProperty(rq)
 			if !bt.sender.Send(rq) {
-				t.Fatalf("VERIF-FATAL blip send getAttachment failed")
+				t.Errorf("VERIF-FATAL blip send getAttachment failed")
+				return
 			}
 			rs := rq.Response()
 			body, _ := rs.Body()
